@@ -257,6 +257,55 @@ def h_dtypes(m):
                 0 <= Y0 + j < 3 and 0 <= X0 + i < 4 and wts[j, i] > 0 for j in range(2) for i in range(2))))
 
 
+def h_nonfinite(m):
+    """images holding nan / inf (outside the real-number model of the symbolic cases): multiply, cutout and get_values on concrete
+    data, every box position in -3..4, with the image a plain array and a view of a larger one (executed)"""
+    from regions import RegionBoundingBox, RegionMask
+    base = np.arange(12, dtype=float).reshape(3, 4) + 0.5
+    wts = np.array([[1.0, 0.5], [0.0, 0.25]])
+
+    def same(a, b):
+        a, b = np.asarray(a, dtype=float), np.asarray(b, dtype=float)
+        return a.shape == b.shape and bool(np.all((a == b) | (np.isnan(a) & np.isnan(b))))
+    for bad in (np.nan, np.inf, -np.inf):
+        for view in (False, True):
+            for X0, Y0 in itertools.product(range(-3, 5), range(-3, 4)):
+                parent = np.full((5, 6), 99.0)
+                parent[1:4, 1:5] = base
+                # the non-finite cells: the one under the zero weight of this box position (if it is on the image) and a fixed one
+                if 0 <= Y0 + 1 < 3 and 0 <= X0 < 4:
+                    parent[1 + Y0 + 1, 1 + X0] = bad
+                parent[1 + 2, 1 + 3] = bad
+                data = parent[1:4, 1:5] if view else parent[1:4, 1:5].copy()
+                keep, pkeep = data.copy(), parent.copy()
+                mk = RegionMask(wts, RegionBoundingBox(X0, X0 + 2, Y0, Y0 + 2))
+                common = max(X0, 0) < min(X0 + 2, 4) and max(Y0, 0) < min(Y0 + 2, 3)
+                for fill in (0.0, 7.5):
+                    wc = mk.multiply(data, fill_value=fill)
+                    m.require(f'multiply None iff no overlap @({X0},{Y0})', (wc is None) == (not common))
+                    m.require(f'multiply leaves an image holding {bad} unchanged @({X0},{Y0}) view={view}', same(data, keep))
+                    if view:
+                        m.require('the array the image is a view of is unchanged', same(parent, pkeep))
+                    if wc is None:
+                        continue
+                    exp = np.empty((2, 2))
+                    for j in range(2):
+                        for i in range(2):
+                            y, x = Y0 + j, X0 + i
+                            if wts[j, i] == 0:
+                                exp[j, i] = fill
+                            elif 0 <= y < 3 and 0 <= x < 4:
+                                exp[j, i] = keep[y, x] * wts[j, i]
+                            else:
+                                exp[j, i] = fill * wts[j, i]
+                    m.require(f'weighted cutout of an image holding {bad} @({X0},{Y0}) fill={fill}', same(wc, exp))
+                v = mk.get_values(data)
+                expv = [keep[Y0 + j, X0 + i] * wts[j, i] for j in range(2) for i in range(2)
+                        if wts[j, i] > 0 and 0 <= Y0 + j < 3 and 0 <= X0 + i < 4]
+                m.require(f'get_values of an image holding {bad} @({X0},{Y0})', same(v, np.array(expv)))
+                m.require('get_values leaves the image unchanged', same(data, keep) and same(parent, pkeep))
+
+
 def harnesses(tier):
     P = functools.partial
     q = tier == 'quick'
@@ -276,6 +325,7 @@ def harnesses(tier):
         hs.append((f'get_values/{tag}/usermask', P(h_get_values, ish, msh, [(0, 0), (1, 1)])))
     hs.append(('errors', h_mask_errors))
     hs.append(('dtypes-executed', h_dtypes))
+    hs.append(('nonfinite-image-executed', h_nonfinite))
     return hs
 
 
@@ -289,10 +339,12 @@ META = {
     'bounds': {'quick': {'image x mask shapes': '2x3/1x1, 2x2/2x2, 1x2/2x1, 0x3/1x1, 2x0/2x2',
                          'box position': 'unbounded symbolic integers (the solver enumerates the overlapping positions; one symbolic path for all non-overlapping ones)',
                          'pixel values, weights in [0,1], fill value': 'symbolic reals; zero pattern of the weights by path forking',
-                         'views': 'multiply with the image a view of a larger array (2x2/2x2, 2x3/1x1): parent untouched', 'dtype cases': 'int / float / Quantity data x fill in {0, 7.5, nan, inf} x 56 box positions (executed)'},
+                         'views': 'multiply with the image a view of a larger array (2x2/2x2, 2x3/1x1): parent untouched', 'dtype cases': 'int / float / Quantity data x fill in {0, 7.5, nan, inf} x 56 box positions (executed)',
+                         'non-finite images': 'image cells nan / +inf / -inf (one under the zero weight of the box, one fixed) x plain array / view of a larger array x fill in {0, 7.5} x 56 box positions: multiply, get_values, image and parent unchanged (executed, no solver verdict: non-finite values are outside the real-number model)'},
                'thorough': {'image x mask shapes': 'adds 3x3/2x2, 2x2/3x2 (mask larger than image), 3x2/1x3, 1x1/2x2 (2x2/3x3 exceeds the path cap: 2^9 weight patterns x positions)'}},
     'outside_claim': ['larger shapes', 'numpy dtype promotion rules beyond the enumerated dtype/fill table',
-                      'symbolic fill values that are non-finite (covered only in the executed dtype table)'],
+                      'symbolic fill values that are non-finite (covered only in the executed dtype table)',
+                      'symbolic image values that are non-finite (covered only by the executed non-finite image table)'],
     'stubs': ['regions.core.mask.np -> facade (isfinite on symbols)', 'regions.core.bounding_box._is_int/int'],
     'assumptions': ['floats are interpreted as reals; Python/numpy integer indices are mathematical integers'],
 }
